@@ -3,7 +3,8 @@
 (* What C17 requires of one `sg run -j N` execution, stated on what the    *)
 (* run printed (no hook needed): the printed records are, as a bag, the    *)
 (* union of the per-file runs; the output parsed; scanned = files of the   *)
-(* tree, skipped = faulty files; exit status 0.  Cfg is the first record   *)
+(* tree, skipped = faulty files; exit status 0 (1 for `scan` with an      *)
+(* error-level rule and a finding).  Cfg is the first record               *)
 (* of the trace.  Shared by Trace_Worker (step-by-step validation against  *)
 (* Worker.tla) and Trace_WorkerBig (runs too long to validate stepwise).   *)
 (***************************************************************************)
@@ -17,5 +18,5 @@ OutcomeReasonsOf(Cfg) ==
           ELSE IF ToSet(Cfg.expected) \ ToSet(Cfg.printed) # {} THEN {"record-lost"} ELSE {"record-duplicated"})
     \cup (IF Cfg.scanned = Cfg.n_files THEN {} ELSE {"scanned-count"})
     \cup (IF Cfg.skipped = Cfg.faulty THEN {} ELSE {"skipped-count"})
-    \cup (IF Cfg.exit = 0 THEN {} ELSE {"exit-status"})
+    \cup (IF Cfg.exit = Cfg.expect_exit THEN {} ELSE {"exit-status"})
 =============================================================================
